@@ -264,7 +264,7 @@ func Histories(alpha []Block, depth, maxDev int, f func(idx int, h []Block)) int
 func Mixes(full bool) []Mix {
 	var out []Mix
 	for _, imm := range []bool{true, false} {
-		for ctor := 0; ctor <= 5; ctor++ {
+		for ctor := 0; ctor <= 7; ctor++ {
 			for _, mut := range []bool{false, true} {
 				for extra := 0; extra <= 2; extra++ {
 					for _, last := range []bool{false, true} {
